@@ -21,6 +21,9 @@ type CLIBase struct {
 	Today      string     `json:"today,omitempty"`
 	// Order is the map-order schedule of the run (cases with an order field of their own overwrite it)
 	Order OrderPlan `json:"order"`
+	// Config, if not empty, is the content of a configuration file at the default location that sets nothing
+	// the case depends on: the commands then go through the configuration-file path of the option loader
+	Config string `json:"config,omitempty"`
 }
 
 func (b *CLIBase) world() World {
@@ -28,6 +31,9 @@ func (b *CLIBase) world() World {
 	w.Argv = b.Inv.Argv()
 	if b.Order.Mode != "" {
 		w.Order = b.Order
+	}
+	if b.Config != "" {
+		w.Files = append(w.Files, FileSpec{Path: w.Home + "/.hranoprovod/config", Kind: "file", Data: b.Config, Plan: ReadPlan{FaultAt: -1}})
 	}
 	return w
 }
@@ -109,6 +115,7 @@ func genCLIBase(t *rapid.T, o baseOpts) CLIBase {
 	}
 	b.Inv = genInvocation(t, o.shapes, b.Book, b.Log)
 	b.Order = OrderPlan{Mode: rapid.SampledFrom([]string{"asc", "desc", "shuffle", "rotate"}).Draw(t, "base_order"), Seed: rapid.Uint64().Draw(t, "base_order_seed"), Arg: 1}
+	b.Config = rapid.SampledFrom([]string{"", "", "", "", "[Global]\n", "; nothing set\n[Global]\n[Resolver]\n"}).Draw(t, "benign_config")
 	return b
 }
 
@@ -266,10 +273,10 @@ func (c *CaseC17) Eval(ob *Obs) []Finding {
 	if base.Failed || L == 0 {
 		return out
 	}
-	// real-binary arm (a sample): the uninstrumented program with its standard output on /dev/full and on a
-	// pipe nobody reads must end with a non-zero status too (this is where main(), signals and os.Exit live)
+	// real-binary arm (a sample): the uninstrumented program with its standard output on /dev/full, on a pipe nobody
+	// reads and on a regular file that cannot grow must end with a non-zero status too (this is where main(), signals and os.Exit live)
 	if realBin != "" && c.Only < 0 && verifsim.HashString(hashOf(c.Base))%24 == 0 {
-		for _, sink := range []string{"devfull", "closedpipe"} {
+		for _, sink := range []string{"devfull", "closedpipe", "fullfile"} {
 			rr := runReal(w, sink)
 			ob.count("real_binary_runs", 1)
 			if !rr.failed {
@@ -299,6 +306,12 @@ func (c *CaseC17) Eval(ob *Obs) []Finding {
 			ob.probe("sink_fault_in_final_write")
 		} else {
 			ob.probe("sink_fault_in_earlier_write") // the writer's buffer filled before Flush: the error surfaces inside Process
+		}
+		if strings.HasPrefix(r.Panic, "hang:") {
+			out = append(out, Finding{"C17 sink-failure-hang cmd=" + shape,
+				fmt.Sprintf("stdout failed with %s after %d of %d bytes (short=%v) and the command neither finished nor failed: %s", c.SinkKind, k, L, c.Short, short(r.Panic, 200))})
+			c.Only = k
+			return out
 		}
 		if !r.Failed {
 			out = append(out, Finding{"C17 sink-failure-exit0 cmd=" + shape,
